@@ -1188,10 +1188,10 @@ def _judge_chunk(args):
 def conform(ctx, run, envs, recs, pool, form_every, best):
     t0 = time.time()
     runj = run.to_json()
-    if pool is None or len(recs) < 3000:
+    if pool is None or len(recs) < 600:
         results = [_judge_chunk((runj, envs, recs, form_every))]
     else:
-        n = 1500
+        n = 1500 if len(recs) >= 6000 else max(200, -(-len(recs) // 4))
         results = pool.map(_judge_chunk, [(runj, envs, recs[i : i + n], form_every) for i in range(0, len(recs), n)])
     stats, found = {}, []
     for s, f in results:
